@@ -77,6 +77,12 @@ def record(lentil, tier, seed):
                 qs = sp.real_spectrum(lentil, sj)
                 out = d.collect_charge(ph, [float(w) for w in waves_u], qs, waveunit=unit)
                 add(dict(base, qe=sj, out=rmat(out)))
+                # the SAME efficiency object serves a second cube whose wavelengths are written in another unit
+                unit2 = rng.choice([u for u in ('nm', 'um', 'angstrom') if u != unit])
+                f2 = Fr(10) ** (-9 - sp.EXP[unit2])
+                waves_2 = [Fr(w) * f2 for w in wave_nm]
+                out2 = d.collect_charge(ph, [float(w) for w in waves_2], qs, waveunit=unit2)
+                add(dict(base, wave=[sp.rj(w) for w in waves_2], wexp=sp.EXP[unit2], qe=sj, out=rmat(out2)))
         except OverflowError:
             continue
     # ---- Bayer ------------------------------------------------------------------------------------------------------
